@@ -171,7 +171,7 @@ def obligations(tier, seed):
 
     st = loader.real_stack()
     obs = []
-    names = ["BsaI", "BbsI", "SapI"] if tier == "quick" else [v[0] for k, v in sorted(geometries().items())]
+    names = ["BsaI", "BbsI", "SapI"] if tier == "quick" else [v[0] for k, v in sorted(geometries().items())] + ["LpnPI", "SgrTI"]
     for e in names:
         for role in ("module", "vector"):
             F = fixed_letters(generic_class(st, role, e).structure())
